@@ -241,6 +241,13 @@ class Oracles:
                             if old[jat] is not None and old[jat] != new[jat]:
                                 self.fail('C39', 'current_attempt', 'C39/completed_by_non_current_attempt',
                                           f'job {key} had current attempt {old[jat]} but was completed by {new[jat]}')
+                    if new[js] == 'Running' and (o != n or old[jat] != new[jat]) and \
+                            (new[jb], new[jj], new[jat]) in getattr(self.w, 'refused_attempts', ()):
+                        # the worker answered 403 to the create request of exactly this attempt (it already runs the job
+                        # under another attempt id): nobody will ever run or report it
+                        self.fail('C39', 'current_attempt', 'C39/job_running_under_attempt_the_worker_refused',
+                                  f'job {key} was marked Running with attempt {new[jat]}, which the worker refused; '
+                                  f'the attempt it actually runs can no longer complete the job')
                     if new[js] in ('Creating', 'Running') and new[jat] is None:
                         self.fail('C39', 'current_attempt', 'C39/running_without_attempt',
                                   f'job {key} is {new[js]} without a current attempt')
